@@ -124,7 +124,10 @@ def gen_generic_seq(rng, gi):
     units = units + [f"g{gi}m0", f"g{gi}m1"]
     tables = {}
     for name in ("P", "Q", "R"):
-        rows = []
+        # (P and Q both cover the first pair, with different lines: which of
+        # them answers depends on the order of registration alone)
+        rows = [] if name == "R" else \
+            [(units[0], units[1], Fraction(2) if name == "P" else Fraction(10), Fraction(0 if name == "P" else 7))]
         for _ in range(rng.randint(1, 3)):
             u, v = rng.sample(units, 2)
             rows.append((u, v, rng.choice([Fraction(2), Fraction(1, 3), Fraction(-5, 2), Fraction(10)]),
@@ -150,6 +153,17 @@ def gen_generic_seq(rng, gi):
                 # a converter object called directly, registered or not: its own
                 # table only (same unit: the amount; no row: None)
                 ops.append(["conv_call", rng.choice("PQR"), f"{a}@{u}", rng.choice([v, u]), _money.MODE])
+    # scripted ending: everything removed, then P, Q, and P AGAIN (no effect:
+    # Q stays the most recent one), the shared pair converted after each step
+    for n_ in "PQR":
+        ops.append(["conv_unreg", cls, n_])
+    for n_ in ("P", "Q", "P"):
+        ops.append(["conv_reg", cls, n_])
+        ops.append(["conv_list", cls])
+        ops.append(["q_conv", f"3@{units[0]}", units[1], _money.MODE])
+        ops.append(["q_conv", f"3@{units[1]}", units[0], _money.MODE])
+    ops.append(["conv_unreg", cls, "Q"])
+    ops.append(["q_conv", f"3@{units[0]}", units[1], _money.MODE])
     ops.append(["conv_list", cls])
     return {"ops": ops, "fork": True, "nsetup": nsetup, "generic_seq": True, "cls": cls,
             "tables": {n: [[f, t, rat(k), rat(o)] for f, t, k, o in rows] for n, rows in tables.items()},
